@@ -273,7 +273,7 @@ static void run_history(const std::vector<std::string>& lines, int fd) {
     std::vector<std::string> ccs, ggs;
     for (size_t i = 0; i < o.cs.size(); ++i) ccs.push_back(row(o.cs[i].first.c_str(), o.cs[i].second));
     for (size_t i = 0; i < o.gs.size(); ++i) ggs.push_back(row(o.gs[i].first.c_str(), o.gs[i].second));
-    vj::Obj e; e.s("e", "Op").i("t", t).s("op", o.op).i("dst", o.dst).i("src", o.src).i("argn", o.n).s("topo", o.topo).s("k", o.k).i("var", o.var).i("den", o.den).i("mod", o.mod)
+    vj::Obj e; e.s("e", "Op").i("t", t).s("op", o.op).i("dst", o.dst).i("src", o.src).i("argn", ((o.op == "add_congruences" || o.op == "refine_with_congruences") && o.cs.empty()) ? 0 : o.n)   /* a C congruence system without rows has no space dimension */.s("topo", o.topo).s("k", o.k).i("var", o.var).i("den", o.den).i("mod", o.mod)
       .raw("v", vj::arr(o.v)).raw("w", vj::arr(o.w)).raw("vs", vj::arr(o.vs)).raw("cs", vj::arrs(ccs)).raw("gs", vj::arrs(ggs))
       .b("rb", out.rb).i("ri", out.ri).raw("rr", out.rr).raw("rc", out.rc).s("exc", exc).raw("obs", out.obs).i("rcode", rcode).i("hcalls", hcalls).i("hcode", hcode)
       .raw("post", std::string("[") + p1 + "," + p2 + "," + p3 + "]").raw("twin", DEADP).raw("plain", DEADP).raw("wtwin", DEADP).b("big", big);
